@@ -1,6 +1,7 @@
 package main
 
 import (
+	"go/token"
 	"fmt"
 	"sort"
 	"strings"
@@ -267,7 +268,9 @@ func c17Handle(c *Ctx, r *Report, rule string) {
 			}
 			sc := &Scenario{Name: name, Params: map[string]SV{"recv": symRef("h", false), "p0": symRef("cx", false), "p1": symRef("next", false)},
 				Heap: map[string]SV{"h.ReadBytesPerSecond": symInt(rate), "h.ReadBurstSize": symInt(burst), "h.Latency": symInt(lat), "h.totalLimiter": symRef("h.totalLimiter", false), "cx.Conn": symRef("rawconn", false)},
-				Inline: func(f *ssa.Function) bool { return f.Parent() == fn }, // deferred closures of Handle run when it returns
+				Inline: func(f *ssa.Function) bool { // deferred closures of Handle run when it returns; helpers of the package it calls are part of it
+					return f.Parent() == fn || f.Pkg != nil && f.Pkg == fn.Pkg && f != fn && f.Parent() == nil && !token.IsExported(f.Name())
+				},
 			}
 			sc.Call = func(callee string, args []SV, ev *symEval, st *symState) (SV, bool) {
 				switch {
